@@ -1,7 +1,7 @@
 (* QbeProofs.v - what the checker QbeWf.wf_module guarantees about Qbe.run.
    Proved: determinism (trivial), soundness of the label rule (5) and of the terminator rule (6)
    with respect to the small-step semantics, uniqueness of definitions and of labels (rule 2).
-   Stated only: wf_sound_statement (dominance and classes). *)
+   Stated here, proved in QbeSoundUndef.v (wf_sound, using QbeSoundType/Class/Dom): wf_sound_statement. *)
 From Coq Require Import ZArith List Bool PArith FMapPositive Lia.
 From Cproc Require Import Model.Qbe Model.QbeWf.
 Import ListNotations.
@@ -13,7 +13,7 @@ Theorem run_deterministic :
     run fo m ext nglob entry fuel = r1 -> run fo m ext nglob entry fuel = r2 -> r1 = r2.
 Proof. intros; congruence. Qed.
 
-(* the full soundness statement of the checker; NOT proved (see notes/C03.md: wf_sound is partial) *)
+(* the full soundness statement of the checker; proved as QbeSoundUndef.wf_sound *)
 Definition wf_sound_statement : Prop :=
   forall m, wf_module m = true ->
   forall fo ext nglob entry fuel,
